@@ -94,6 +94,40 @@ func inventoryOf(pkgs []*packages.Package) []*invItem {
 				}
 			}
 		}
+		// where each field is used: names of the declared functions that mention it (tie-break for renamed fields)
+		fieldUse := map[types.Object]map[string]bool{}
+		for _, f := range pk.Syntax {
+			for _, d := range f.Decls {
+				fd, ok := d.(*ast.FuncDecl)
+				if !ok || fd.Body == nil {
+					continue
+				}
+				fname := fd.Name.Name
+				if fd.Recv != nil && len(fd.Recv.List) == 1 {
+					fname = types.ExprString(fd.Recv.List[0].Type) + "." + fname
+				}
+				ast.Inspect(fd.Body, func(m ast.Node) bool {
+					if id, ok := m.(*ast.Ident); ok {
+						if v, ok := pk.TypesInfo.Uses[id].(*types.Var); ok && v.IsField() {
+							o := types.Object(v.Origin())
+							if fieldUse[o] == nil {
+								fieldUse[o] = map[string]bool{}
+							}
+							fieldUse[o][fname] = true
+						}
+					}
+					return true
+				})
+			}
+		}
+		useFp := func(o types.Object) []string {
+			var out []string
+			for k := range fieldUse[o] {
+				out = append(out, k)
+			}
+			sort.Strings(out)
+			return out
+		}
 		sc := pk.Types.Scope()
 		for _, n := range sc.Names() {
 			switch o := sc.Lookup(n).(type) {
@@ -126,7 +160,7 @@ func inventoryOf(pkgs []*packages.Package) []*invItem {
 								sig = "struct{…}"
 								addFields(owner+"."+fl.Name(), inner, false)
 							}
-							out = append(out, &invItem{Kind: "field", Pkg: sp, Owner: owner, Name: fl.Name(), Sig: sig, obj: fl})
+							out = append(out, &invItem{Kind: "field", Pkg: sp, Owner: owner, Name: fl.Name(), Sig: sig, Fp: useFp(fl), obj: fl})
 						}
 					}
 					addFields(n, st, true)
@@ -261,7 +295,8 @@ func matchRenames(frozen, current []*invItem) []renamePair {
 			ok := false
 			switch {
 			case kind == "field":
-				ok = unique // fields have no body: only an unambiguous type match
+				// fields have no body: an unambiguous type match, or clearly the same set of using functions
+				ok = unique || x.score >= 0.6 && x.score-second >= 0.2
 			case kind == "type":
 				ok = x.score >= 0.6 && x.score-second >= 0.2
 			case unique:
